@@ -592,6 +592,7 @@ class Explorer(object):
     def violation(self, kind, summary, case, bits, cfg, **sig):
         d = case.as_dict(bits, cfg)
         full = dict(sig)
+        full["variant"] = akb.variant()
         # per-case details (operands, arguments of the failing primitive) go into the replayable case, where the
         # known-findings predicates read them; they do not form violation groups
         d["detail"] = {k: full.pop(k) for k in ("operands", "args", "result", "expected_stack", "observed_stack")
